@@ -274,6 +274,9 @@ func (c *Control) ArmErr(class string, k, n int) {
 	c.mu.Unlock()
 }
 
+// ReadCount tells how many read calls were made so far.
+func (c *Control) ReadCount() int { c.mu.Lock(); defer c.mu.Unlock(); return c.Reads }
+
 // ErrFiredCount tells how many calls failed since ArmErr.
 func (c *Control) ErrFiredCount() int { c.mu.Lock(); defer c.mu.Unlock(); return c.ErrFired }
 
